@@ -154,17 +154,18 @@ def judge(chk, cases, outs, tag, batch=6000, workers=4, par=2):
     return sorted(bad), conf
 
 
-NFMT = 18
+NFMT = 23
 
 
 def fmt_cases():
     """write_fmt over real format_args! universes (char arguments, fill characters, {:?} escapes,
-    nested write!): the driver fills in data / pieces from core's own formatting (format!)."""
+    nested write!; literal-only format strings): the driver fills in data / pieces from core's own formatting (format!)."""
     A = lambda k: {"t": "a", "k": k}
     E, Z = {"t": "eintr", "k": 0}, {"t": "zero", "k": 0}
     R = lambda e: {"t": "err", "k": e}
     scripts = [[], [A(1)] * 8, [A(2)] * 6, [A(3)] * 5, [E, A(1), E, A(2)], [R(5)], [A(1), R(5)], [A(2), A(1), R(11)],
-               [Z], [A(1), Z], [A(1), A(1), A(1), R(5)], [E, E, E], [A(1), A(2), A(1), A(2), A(1), R(28)]]
+               [Z], [A(1), Z], [A(1), A(1), A(1), R(5)], [E, E, E], [A(1), A(2), A(1), A(2), A(1), R(28)],
+               [E], [E, R(5)], [E, Z], [A(1), E, A(1)], [A(1), E, R(5)], [Z, R(5)], [E, A(100)]]
     return [{"op": "write_fmt", "script": sc, "data": [], "init": [], "cap0": 0, "n": 0, "pieces": [], "ff": 0, "fmtid": i}
             for i in range(NFMT) for sc in scripts]
 
